@@ -52,10 +52,10 @@ def confirmed(c):
     return bool(c) and c["apply"] != "FAIL" and c["tests"].startswith("388 passed") and c["demo_patched"] != 0 and c["demo_clean"] == 0
 
 
-ROUND = {"a": 1, "b": 1, "c": 2, "d": 2, "e": 3, "f": 3, "g": 4, "h": 4, "i": 5, "j": 5, "k": 6, "l": 6, "m": 7, "n": 7, "o": 8, "p": 8, "q": 9, "r": 9, "s": 10, "t": 10}
+ROUND = {"a": 1, "b": 1, "c": 2, "d": 2, "e": 3, "f": 3, "g": 4, "h": 4, "i": 5, "j": 5, "k": 6, "l": 6, "m": 7, "n": 7, "o": 8, "p": 8, "q": 9, "r": 9, "s": 10, "t": 10, "u": 11, "v": 11}
 out = ["# Seeded changes x checks", "",
        "Each change was written by an independent sub-agent from the text of one property only (round = pair of variant letters:",
-       "a,b / c,d / e,f / g,h / i,j / k,l / m,n / o,p / q,r / s,t; every later round was told the one-line summaries of the earlier ones).  Every line below is",
+       "a,b / c,d / e,f / g,h / i,j / k,l / m,n / o,p / q,r / s,t / u,v; every later round was told the one-line summaries of the earlier ones).  Every line below is",
        "what two scripts printed on scratch worktrees of the current `/repo` HEAD: `tools/seed_confirm.sh` (the patch applies, the 388",
        "tests pass with it, the demo fails with it and passes without it) and `tools/seed_run.sh` (quick check of the seed's own property",
        "against HEAD + patch; run from a committed snapshot of `/verif`).  What was missed when a round was first run, and what was",
